@@ -15,6 +15,7 @@ def run(name, extra):
     d = os.path.join(ROOT, "seeded", name)
     meta = json.load(open(os.path.join(d, "meta.json")))
     prop = meta["breaks_property"]
+    extra = list(extra) + [x for x in meta.get("also_checks", []) if x not in extra]
     out = {}
     for label, flags in (("with_replays", []), ("generated_only", ["--no-replays"])):
         fd, tmp = tempfile.mkstemp(suffix=".json")
